@@ -363,8 +363,8 @@ def shards(tier, seed):
     plain += [('builtin', p) for p in PAIRS2]
     out = [{'part': 'pairs', 'pairs': plain[i::n]} for i in range(n)]
     out += [{'part': 'pairs', 'pairs': [p], 'debug_stride': 4 if q else 1} for p in dbg]
-    out += [{'part': 'sched', 'n': 80 if q else 4000} for _ in range(3)]
-    out += [{'part': 'stress', 'seconds': 3 if q else 40} for _ in range(2)]
+    out += [{'part': 'sched', 'n': 80 if q else 15000} for _ in range(3)]
+    out += [{'part': 'stress', 'seconds': 3 if q else 120} for _ in range(2)]
     return out
 
 
